@@ -45,6 +45,7 @@ bool digest_of(const Bytes &b, uint64_t *out, size_t *remaining, std::string *er
 
 int freeze() {
   build_generators();
+  build_large_generators();
   std::string dir = kDir;
   mkdir("/verif/corpus", 0755);
   mkdir(dir.c_str(), 0755);
@@ -132,6 +133,7 @@ int main(int argc, char **argv) {
     return 2;
   }
   build_generators();
+  build_large_generators();
   std::map<std::string, int> gen_by_name;
   for (size_t i = 0; i < g_gens.size(); ++i) gen_by_name[g_gens[i].name] = (int)i;
   R.rule =
@@ -185,8 +187,13 @@ int main(int argc, char **argv) {
         return;
       }
       Recorder rec;
+      std::vector<std::array<int64_t, 3>> events;
+      rec.events = &events;
       EncResult r = encode_gen(g_gens[it->second], &rec);
       ctx.count("encodes");
+      for (auto &e : events)
+        if (e[0] == draco::verif::EV_SYMBOL_SCHEME)
+          ctx.count(std::string(e[1] == 1 ? "raw" : "tagged") + "_symbol_blocks_max_value_bits_" + (e[2] < 10 ? "0" : "") + std::to_string(e[2]));
       if (!r.ok) {
         ctx.fail("frozen-generator-no-longer-encodes", z.name + ": " + r.error);
         return;
@@ -244,5 +251,6 @@ int main(int argc, char **argv) {
   R.require("newer_version_rewrites", 1000);
   R.require("streams_of_bitstream_v1.1", 1);
   R.require("streams_of_bitstream_v2.0", 1);
+  for (int b = 9; b <= 15; ++b) R.require("raw_symbol_blocks_max_value_bits_" + std::string(b < 10 ? "0" : "") + std::to_string(b), 1);
   return R.main();
 }
